@@ -61,7 +61,7 @@ def new_frame(kind):
     if kind == "sub":
         return df.iloc[[1, 4, 9, 16, 25]].reset_index(drop=True)
     if kind == "rev":
-        return df.iloc[::-1].reset_index(drop=True)
+        return df.iloc[::-1]  # labels kept: n-1 .. 0
     if kind == "one":
         return df.iloc[[13]].reset_index(drop=True)
     if kind == "dup":
@@ -76,6 +76,7 @@ def new_frame(kind):
         h = nd["h"].astype(object)
         h[0] = "H_NEW"
         nd["h"] = h
+    nd.index = [9, 4, 7, 2]  # filtered / sorted new data: labels are not 0..n-1
     return nd
 
 
